@@ -18,7 +18,7 @@ var pureExtern = map[string]bool{
 	"log.Printf": true, "log.Println": true,
 	"flag.Bool": true, "flag.Parse": true, "flag.Arg": true,
 	"context.Background": true,
-	"runtime.GOMAXPROCS":  true, "runtime.LockOSThread": true,
+	"runtime.GOMAXPROCS": true, "runtime.LockOSThread": true,
 }
 
 // process-terminating host functions.
